@@ -259,6 +259,16 @@ def stop_base(rng: random.Random, i: int) -> dict:
     if nb > 1:
         sc['handlers'].append({'bus': 1, 'pat': 1, 'kind': 'async', 'prog': [['sleep', rng.choice([0.15, 0.3, 1.0])], ['disp', 2, 1, 'await', rng.choice([None, 0]), {}]]})
     sc['actors'].append([['many', 0, 0, rng.choice([2, 4, 8])]])
+    if nb > 1 and rng.random() < 0.5:
+        # bus 0's run loop -> handler awaiting an event on a parallel bus whose FIRST handler just sleeps (and is slow to unwind)
+        # while a later sibling is inside an await of its own, processing an event of bus 0 with several handlers: whatever
+        # cancels bus 0's run loop must reach both siblings at once
+        sc['buses'][1]['par'] = True
+        sc['handlers'].insert(0, {'bus': 1, 'pat': 4, 'kind': 'async', 'prog': [['sleep', 2.0]], 'cleanup': rng.choice([0.4, 1.0])})
+        sc['handlers'].append({'bus': 1, 'pat': 4, 'kind': 'async', 'prog': [['sleep', rng.choice([0, 0.05])], ['disp', 5, 0, 'await', None, {}], ['disp', 5, 0, 'await', None, {}]]})
+        sc['handlers'].append({'bus': 0, 'pat': 5, 'kind': 'async', 'prog': [['sleep', rng.choice([0.2, 0.3])]]})
+        sc['handlers'].append({'bus': 0, 'pat': 5, 'kind': 'async', 'prog': [['sleep', 0.05]]})
+        sc['handlers'].append({'bus': 0, 'pat': 0, 'kind': 'async', 'prog': [['disp', 4, 1, 'await', rng.choice([None, 0]), {}]]})
     for h in sc['handlers']:
         if h['kind'][0] == 'a' and rng.random() < 0.3:
             h['cleanup'] = rng.choice([0.15, 0.4, 1.0])  # slow to react to cancellation: stop() must not wait for that
